@@ -22,7 +22,8 @@ CONSTANTS BkrSigners,   \* who tries to settle
           BkrBanks,     \* set of <<account, debt bank>>
           InsLevels,    \* amounts donated to the insurance vault
           OptIns,       \* values the admin may give the permissionless flag
-          After         \* set of <<account, bank, amount>>: deposits / withdrawals tried afterwards
+          After,        \* set of <<account, bank, amount>>: deposits / withdrawals tried afterwards
+          BkrStates     \* operational states the admin may ask for
 
 \* tokens donated straight to the insurance vault (environment)
 FundIns(bn, amt) ==
@@ -42,17 +43,27 @@ OptIn(bn, on) ==
       post == [st EXCEPT !.banks[bn].flags = fl]
   IN Do(a, "ok", post, [banks |-> [x \in {bn} |-> [flags |-> fl]]])
 
+\* configure_bank{operational_state}: the group admin moves a bank between paused / operational / reduce-only; "killed by bankruptcy"
+\* cannot be asked for, and a bank that is in that state stays in it whatever is asked for
+SetState(bn, s) ==
+  LET a == [op |-> "configure_bank", bank |-> bn, cfg |-> [op_state |-> s]]
+      post == [st EXCEPT !.banks[bn].cfg.op_state = s]
+  IN IF s = OP_KILLED THEN Fail(a, "Unauthorized")
+     ELSE IF st.banks[bn].cfg.op_state = OP_KILLED THEN Fail(a, "BankKilledByBankruptcy")
+     ELSE Do(a, "ok", post, [banks |-> (bn :> [cfg |-> [op_state |-> s]])])
+
 NextB ==
   /\ depth < MaxDepth
   /\ \/ \E d \in Ticks : Tick(d)
      \/ \E p \in Prices : SetPrice(p[1], p[2], p[3])
      \/ \E c \in BkrBanks, x \in InsLevels : FundIns(c[2], x)
      \/ \E c \in BkrBanks, on \in OptIns : OptIn(c[2], on)
+     \/ \E c \in BkrBanks, s \in BkrStates : SetState(c[2], s)
      \/ \E c \in BkrBanks, sg \in BkrSigners : Bankruptcy(c[1], c[2], sg)
      \/ \E u \in After : Deposit(u[1], u[2], u[3]) \/ Withdraw(u[1], u[2], u[3], FALSE)
      \/ \E u \in After : Withdraw(u[1], u[2], 0, TRUE)
      \/ \E t \in LiqTriples, q \in Amounts : Liquidate(t[1], t[2], t[3], t[4], q)
 
 SpecB == Init /\ [][NextB]_vars
-ViewB == <<View, [b \in BankNames |-> st.banks[b].flags]>>
+ViewB == <<View, [b \in BankNames |-> <<st.banks[b].flags, st.banks[b].cfg.op_state>>]>>
 =============================================================================
